@@ -448,6 +448,19 @@ class Runner:
             self.impl_race_exe = exe
         return not self.build_problems
 
+    def can_run(self, race=False):
+        """may the legs run?  Needs both binaries.  When only the model's re-extraction failed (a broken tie / theorem stops
+        `make` before Extract/*.vo) the model binary of the last successful extraction is used: the verdict is a VIOLATION
+        already, the legs then only look for a concrete failing input (stale_model is recorded in the evidence)."""
+        impl = self.impl_race_exe if race else self.impl_exe
+        if not (impl and os.path.exists(impl) and self.model_exe and os.path.exists(self.model_exe)):
+            return False
+        if any(k == "corr-build" for k, _, _ in self.build_problems):
+            return False
+        if any(k == "model-build" for k, _, _ in self.build_problems):
+            self.stale_model = True
+        return True
+
     # ---- running one leg
     def eval_cases(self, leg, cases):
         """returns list of (case_with_oracle, impl, model, spec, cls)"""
@@ -644,8 +657,7 @@ class Runner:
         broken = [("%s:%s" % (k, n)) for k, n, _ in self.build_problems]
         if self.corr_breaks:
             broken += sorted({"corr:" + r["leg"] for r in self.corr_breaks})
-        if broken and not self.violations and self.impl_exe and self.model_exe and \
-                not any(k in ("corr-build", "model-build") for k, _, _ in self.build_problems):
+        if broken and not self.violations and self.can_run():
             self.search(legs, 90 if self.tier == "quick" else 600)
         if self.violations or broken:
             verdict = "violation"
@@ -698,6 +710,7 @@ class Runner:
             "coq_files_in_closure": getattr(self, "closure", []),
             "forbidden_tokens_outside_closure": getattr(self, "forbidden_elsewhere", []),
             "coqchk": getattr(self, "coqchk", None) or "thorough tier only",
+            "stale_model": bool(getattr(self, "stale_model", False)),
         }
         if extra_cov:
             cov.update(extra_cov)
@@ -726,7 +739,7 @@ def standard_main(pid, legs, tier, seed, ties=(), need_race=False, trusted=None,
     ok = r.build(ties=ties, need_race=need_race, coq_targets=coq_targets)
     for pre, opid in (other_models or {}).items():
         r.add_model(pre, opid)
-    can_run = r.impl_exe and r.model_exe and not any(k in ("corr-build", "model-build") for k, _, _ in r.build_problems)
+    can_run = r.can_run()
     if can_run:
         legs_by_name = {l.name: l for l in legs}
         r.replay_findings(legs_by_name)
